@@ -24,7 +24,7 @@ type BodyCase struct {
 	Var  string `json:"var"`
 }
 
-const bodyRule = "bodies: 26 body templates (attributes, static blocks with and without labels, dynamic blocks whose for_each / labels / content / iterator use the marked variable, static and dynamic blocks nested in dynamic content) x 5 marked variables x every hcldec block spec kind (Attr, Block, BlockList, BlockSet, BlockTuple, BlockMap, BlockObject, BlockAttrs; nested block specs one level down) x all pairs of contents incl. unknown; decoded with dynblock.Expand + hcldec.Decode"
+const bodyRule = "bodies: 32 body templates (attributes, static blocks with and without labels, dynamic blocks whose for_each / labels / content / iterator use the marked variable, static and dynamic blocks nested in dynamic content) x 5 marked variables x every hcldec block spec kind (Attr, Block, BlockList, BlockSet, BlockTuple, BlockMap, BlockObject, BlockAttrs; nested block specs one level down) x all pairs of contents incl. unknown; decoded with dynblock.Expand + hcldec.Decode"
 
 var attrA = &hcldec.AttrSpec{Name: "a", Type: cty.DynamicPseudoType}
 
@@ -87,6 +87,11 @@ var templates = []tmpl{
 	{text: "dynamic \"b\" {\n  for_each = X\n  labels = [b.key]\n  content {\n    a = 1\n  }\n}\n", labels: true},
 	{text: "dynamic \"b\" {\n  for_each = X ? [1] : []\n  content {\n    a = 1\n  }\n}\n"},
 	{text: "dynamic \"b\" {\n  for_each = X ? [1] : [2]\n  content {\n    a = 1\n  }\n}\n"},
+	// content that sets no attributes: only the number of blocks depends on the marked value
+	{text: "dynamic \"b\" {\n  for_each = X\n  content {}\n}\n"},
+	{text: "b {}\ndynamic \"b\" {\n  for_each = X\n  content {}\n}\n"},
+	{text: "dynamic \"b\" {\n  for_each = X\n  labels = [\"l\"]\n  content {}\n}\n", labels: true},
+	{text: "dynamic \"b\" {\n  for_each = X ? [1, 2] : [1]\n  content {}\n}\n"},
 	// nested c blocks inside b
 	{text: "b {\n  c {\n    a = X\n  }\n}\n", nested: true},
 	{text: "dynamic \"b\" {\n  for_each = X\n  content {\n    c {\n      a = 1\n    }\n  }\n}\n", nested: true},
@@ -97,6 +102,8 @@ var templates = []tmpl{
 	{text: "b {\n  dynamic \"c\" {\n    for_each = X\n    content {\n      a = c.value\n    }\n  }\n}\n", nested: true},
 	{text: "dynamic \"b\" {\n  for_each = X\n  content {\n    c {\n      a = 1\n    }\n    c {\n      a = 2\n    }\n  }\n}\n", nested: true},
 	{text: "dynamic \"b\" {\n  for_each = [1]\n  content {\n    c {\n      a = X\n    }\n  }\n}\n", nested: true},
+	{text: "dynamic \"b\" {\n  for_each = X\n  content {\n    c {}\n  }\n}\n", nested: true},
+	{text: "dynamic \"b\" {\n  for_each = [1]\n  content {\n    dynamic \"c\" {\n      for_each = X\n      content {}\n    }\n  }\n}\n", nested: true},
 }
 
 func s(x string) cty.Value { return cty.StringVal(x) }
